@@ -103,6 +103,29 @@ pub fn trial_opts(net: &mut Net, b: u64, kind: &'static str, writer: usize, read
     net.sim.run_calls(&mut [&mut put], 60_000);
     let put_done = put.done_ns().unwrap_or(net.sim.now_ns());
     let acks = ackers(net, writer, &st.target, log0, put_done);
+    // every third announce: a SECOND announcer for the same info_hash, on the writer's IP address (another client behind the
+    // same NAT / on the same host, other port; for signed announcements: another signer) announces after the first one.
+    // The first announcer's record must still be found.
+    let mut second = "";
+    if b % 3 == 1 && (kind.starts_with("announce") || st.kind == "signed") && !polled {
+        let mut o = NodeOpts::client(*waddr.ip(), &net.boot);
+        o.port = 6999;
+        let w2 = net.sim.add_node(o);
+        net.clients.push(w2);
+        net.sim.run_for(3000);
+        let req2 = if st.kind == "signed" {
+            let sk = crypto::keypair(9);
+            let ts = v::unix_micros();
+            let sig = crypto::sign(&sk, &crypto::announce_signable(&st.target, ts));
+            PutRequestSpecific::AnnounceSignedPeer(v::AnnounceSignedPeerRequestArguments { info_hash: Id::from(st.target), t: ts, k: sk.verifying_key().to_bytes(), sig })
+        } else {
+            PutRequestSpecific::AnnouncePeer(v::AnnouncePeerRequestArguments { info_hash: Id::from(st.target), port: 4343, implied_port: None })
+        };
+        let mut put2 = net.sim.call_put(w2, req2, None, "put2");
+        net.sim.poke(w2);
+        net.sim.run_calls(&mut [&mut put2], 60_000);
+        second = if matches!(put2.outcome(), Some(Outcome::PutOk(_))) { "+second_announcer" } else { "+second_announcer_failed" };
+    }
     // the get may come right away, a minute later, or after several maintenance rounds
     let delay_ms = match if polled { 0 } else { b % 5 } {
         0 | 1 => rng.range(100, 3000),
@@ -152,7 +175,7 @@ pub fn trial_opts(net: &mut Net, b: u64, kind: &'static str, writer: usize, read
         "live_ackers_other_than_reader": acks.iter().filter(|a| alive.contains(a) && **a != raddr).count(),
         "crashed": crash.iter().map(|&c| net.sim.nodes[c].addr.to_string()).collect::<Vec<_>>(),
         "reader_knows_live": knows_live, "get_done": done, "found": found(&get, &st.expect), "items": get.items.len(),
-        "concurrent": concurrent, "delay_ms": delay_ms, "panicked": net.sim.nodes.iter().any(|n| n.panicked)})
+        "concurrent": format!("{concurrent}{second}"), "delay_ms": delay_ms, "panicked": net.sim.nodes.iter().any(|n| n.panicked)})
 }
 
 pub fn run(args: &Args) -> i32 {
